@@ -119,8 +119,14 @@ def run(prog, rep, tier, repo):
                 v = eff.state[fi]
                 want = {om.clean(gmap(g, lambda t: subst(t, mapping))) for g in om.new_guards if any(mentions(x, na) for x in gterms(g))}
                 got = {om.clean(g) for g in eff.guards if any(mentions(x, v) for x in gterms(g))}
+                opaque = [g for g in got if g[0] == 'cond'] + [('cond', oc, '?') for oc in eff.opaque if mentions(oc, v) or any(mentions(z, v) for z in subterms(oc))]
                 if want == got:
                     rep.ok('setter-agree', key, 'validates like new: {%s}' % '; '.join(sorted(show_guard(g) for g in got)) if got else 'unconstrained in new and in the setter')
+                elif opaque and not any(g[0] == 'cond' for g in want):
+                    # the setter tests the new value through something that is not a plain comparison (partial_cmp + match on the Ordering,
+                    # a predicate call): which values pass is not read
+                    rep.undecided('setter-agree', key, '%s validates `%s` through %s: the accepted set is not read' % (
+                        short(sk), show(v)[:20], '; '.join(show_guard(g)[:60] for g in opaque[:2])), site_of(st.body), proof=False)
                 else:
                     missing = want - got
                     extra = got - want
@@ -246,6 +252,12 @@ def _check_update(prog, rep, sm, om, uf, param_fields, derived):
     want = {om.clean(gmap(g, lambda t: subst(t, mapping))) for g in om.new_guards}
     got = {om.clean(g) for g in eff.guards if relevant(g)}
     stale = [g for g in got - want if any(tag(z) == 'field' and tag(z[1]) == 'arg' and z[1][1] == 1 for x in gterms(g) for z in subterms(x))]
+    opaque = [g for g in got - want if g[0] == 'cond' and g not in stale] + \
+        [('cond', oc, '?') for oc in eff.opaque if any(any(z == v_ for z in subterms(oc)) for v_ in vals)]
+    if opaque and not stale and (want - got) and not any(g[0] == 'cond' for g in want):
+        rep.undecided('update', key, 'a new value is validated through %s: the accepted set is not read' % '; '.join(show_guard(g)[:60] for g in opaque[:2]),
+                      site_of(uf.body), proof=False)
+        return
     if stale:
         problems.append('a new value is validated against a field of the object as it was before the update ({%s}): a valid parameter set can be '
                         'rejected depending on the previous parameters' % '; '.join(show_guard(g) for g in stale))
